@@ -29,7 +29,7 @@ CLAIMS = {
              "exact tables; asset-lookup forwarding completeness over all Satisfier impls; malleable entry points reach "
              "malleable internals (call-site rule with reasoned exceptions). End to end on a bounded family (as C01): whenever a "
              "canonical satisfaction exists with the owned assets, the malleable satisfier returns one, and so does the "
-             "non-malleable one for scripts typed non-malleable. The planner's matching of keys against the caller's Assets (is_key_direct_child_of) is an exhaustive table on short paths (rule shared with C17).",
+             "non-malleable one for scripts typed non-malleable. The planner's matching of keys against the caller's Assets (is_key_direct_child_of) is an exhaustive table on short paths (rule shared with C17). The map Satisfier impls return the entry for exactly the asked key / hash / leaf.",
         note="Trusted: spec/satisfaction.py; rustc THIR. The witness search itself is not decided.",
         tech=STATIC + "cross-table contradiction rule, finite decision tables from THIR, who-calls-whom mode rule",
         engine="symx+tablex"),
@@ -164,7 +164,10 @@ CLAIMS["C16"] = dict(
          "over such keys (parsed, split and printed by evaluation): into_single_descriptors yields exactly the texts with "
          "each <a;b;..> step replaced by its j-th alternative, at_derivation_index(i) the text with /* replaced by /i "
          "(refused for multipath, hardened and out-of-range cases), and keys with different numbers of alternatives "
-         "are refused; Tr::script_pubkey is OP_1 <output key> and Tr::address the tweaked-key address of the same key.",
+         "are refused; has_wildcard / is_multipath / into_definite / derive_at_index answer accordingly and "
+         "derived_descriptor's keys are derived along exactly those paths; Tr::script_pubkey is OP_1 <output key> and "
+         "Tr::address the tweaked-key address of the same key; DescriptorSecretKey::to_public moves exactly the hardened "
+         "prefix into the origin and keeps origin path + path.",
     note="Trusted: spec/outputs.py; rust-bitcoin script/address constructors and BIP-32 child derivation modelled as term "
          "constructors; rustc THIR. BIP32 arithmetic and taproot output keys (C15) are not decided.",
     tech=STATIC + "symbolic extraction of output-script terms compared with a standards table; sibling agreement; dispatch uniformity",
@@ -180,7 +183,9 @@ CLAIMS["C17"] = dict(
          "AssetProvider) the locks a template reports are necessary and sufficient for its witness in the reference "
          "execution (validates with them, fails with one less and with the other unit; no lock reported = none needed); "
          "Placeholder::satisfy_self turns every placeholder into exactly the element it stands for (decision table over "
-         "placeholder kinds x key forms x satisfier holdings).",
+         "placeholder kinds x key forms x satisfier holdings); Assets as asset provider (key source x fingerprint x "
+         "capability x leaf availability x signature size; preimage sets; lock maxima; append) and a Satisfier as asset "
+         "provider answer exactly from what they hold.",
     note="Trusted: spec/outputs.py, spec/satisfaction.py, spec/msexec.py; rustc THIR. Byte equality of completed plans "
          "is not decided.",
     tech=STATIC + "call-structure rules, finite decision tables and symbolic field-provenance extraction from THIR",
@@ -199,10 +204,12 @@ CLAIMS["C10"] = dict(
          "pairs; descriptor public-key expressions (single / extended keys x origin x derivation path x multipath step x "
          "wildcard) round-trip, non-canonical spellings reach a fixed point, repeated multipath indexes are refused; "
          "wallet-policy key placeholders @i/<M;N>/* (incl. /** and pairs of different digit counts) and whole templates "
-         "round-trip, a descriptor turns into its template and back. Inside miniscripts keys and hashes are opaque texts.",
+         "round-trip, a descriptor turns into its template and back; secret key expressions round-trip and "
+         "parse_descriptor / to_string_with_secret restore a descriptor's secret keys exactly. Inside miniscripts keys and "
+         "hashes are opaque texts.",
     note="Trusted: spec/bip380.py (BIP-380 reference + model of the bech32 crate's engine); rust-bitcoin lock-time "
          "Display; evaluator semantics and its std string / fmt models; rustc THIR. The 2/4-error detection capability "
-         "follows from the BIP-380 generator (constants decided, code distance not re-proved). Secret keys, base58 "
+         "follows from the BIP-380 generator (constants decided, code distance not re-proved). WIF keys, base58 "
          "decoding of extended keys (modelled as opaque text of the right shape) are not decided.",
     tech=STATIC + "abstract evaluation of printer and parser THIR over an exhaustive family of one- and two-level model "
                   "shapes (locality of both sides makes the family complete per level); constant comparison with BIP-380",
@@ -246,7 +253,9 @@ CLAIMS["C14"] = dict(
          "per leaf whose control block folds to the root, per-key sorted duplicate-free leaf hashes with the key source) "
          "over tree shapes and key placements with hashes as a free algebra; its key translator records (master "
          "fingerprint, origin path + path) for the key derived along the definite key's own path; Plan::update_psbt_input "
-         "records the same BIP-174 scripts per descriptor type.",
+         "records the same BIP-174 scripts per descriptor type; PsbtInputSatisfier finds every signature / key in the "
+         "BIP-174 / 371 field assigned to it for exactly the asked key, hash and leaf; update_input_with_descriptor checks the "
+         "descriptor against the really spent output (utxo consistency table).",
     note="Trusted: rust-bitcoin PSBT / lock-time types modelled by fields and consensus encodings; C13 (interpreter) and "
          "C01-C03 (satisfier); rustc THIR/MIR; evaluator. Real signatures / sighashes, extraction, operation-history "
          "independence beyond the per-call state tables, and taproot field population are not decided.",
